@@ -199,3 +199,104 @@ theorem inspect_full_iff (H : HashFn) (hU : H.Uniform) (o : ReadOpts) (ht : o.tr
     rw [hp, zip_map_seenOf bs lens hlen hlens]
 
 end Car
+
+namespace Car
+
+theorem pragma_length : pragma.length = 11 := by decide
+
+/-- **Inspection accepts every laid-out CARv2** (any data/index padding, with or without an index,
+    either fully-indexed flag) over a valid payload, and reports exactly the payload's statistics and
+    the index codec. Used by C05 (finalized files), C19 (`car index` / `car concat` outputs). -/
+theorem inspect_layoutV2 (H : HashFn) (hU : H.Uniform) (o : ReadOpts) (validate : Bool) (dp ip : Nat)
+    (roots : Option (List Cid)) (bs : List Block) (hasIdx fi : Bool) (index : Bytes) (codec : Nat)
+    (hwf : (CarHeader.mk roots 1).wf) (hmax : (encodeHeaderBody ⟨roots, 1⟩).length ≤ o.maxHeader)
+    (h63 : (encodeHeaderBody ⟨roots, 1⟩).length < 2 ^ 63) (h10 : 10 ≤ o.maxHeader)
+    (lok : LayoutOK dp ip (payload roots bs).length)
+    (hok : ∀ b ∈ bs, b.wf o.maxSection ∧ b.cid.digest.length ≤ maxDigestAlloc ∧
+      (validate = true → sumOk H b.cid b.data = true ∧ verifies H b.cid b.data = true))
+    (hidx : hasIdx = true → ∃ rest, index = uvarint codec ++ rest ∧ codec < 2 ^ 63) :
+    inspect H o validate (layoutV2 dp ip (payload roots bs) hasIdx fi index)
+      = .ok (statsOf 2 (finalHeader dp ip (payload roots bs).length hasIdx fi) (roots.getD [])
+              (bs.map seenOf) (if hasIdx then codec else 0)) := by
+  have hp := payload_length_pos roots bs
+  generalize hn : (payload roots bs).length = n at *
+  have hfw := finalHeader_wf dp ip n hasIdx fi hp lok
+  generalize hh : finalHeader dp ip n hasIdx fi = hdr at *
+  have hdo : hdr.dataOffset = 51 + dp := by rw [← hh]; rfl
+  have hds : hdr.dataSize = n := by rw [← hh]; rfl
+  have hio : hdr.indexOffset = if hasIdx then 51 + dp + n + ip else 0 := by rw [← hh]; rfl
+  let tail : Bytes := if hasIdx then zeros ip ++ index else []
+  have e : layoutV2 dp ip (payload roots bs) hasIdx fi index
+      = pragma ++ (hdr.bytes ++ (zeros dp ++ (payload roots bs ++ tail))) := by
+    simp [layoutV2, hn, hh, tail]
+  have e11 : (layoutV2 dp ip (payload roots bs) hasIdx fi index).drop 11 = hdr.bytes ++ (zeros dp ++ (payload roots bs ++ tail)) := by
+    rw [e, List.drop_left' pragma_length]
+  have e40 : ((layoutV2 dp ip (payload roots bs) hasIdx fi index).drop 11).take 40 = hdr.bytes := by
+    rw [e11, List.take_left' (V2Header.bytes_length hdr)]
+  have ewin : ((layoutV2 dp ip (payload roots bs) hasIdx fi index).drop (51 + dp)).take n = payload roots bs := by
+    have : (pragma ++ (hdr.bytes ++ zeros dp)).length = 51 + dp := by
+      simp [pragma_length, V2Header.bytes_length, zeros_length]; omega
+    have e2 : layoutV2 dp ip (payload roots bs) hasIdx fi index
+        = (pragma ++ (hdr.bytes ++ zeros dp)) ++ (payload roots bs ++ tail) := by rw [e]; simp
+    rw [e2, List.drop_left' this, List.take_left' hn]
+  unfold inspect
+  have hrp : readHeader o.maxHeader (layoutV2 dp ip (payload roots bs) hasIdx fi index)
+      = .ok (⟨none, 2⟩, hdr.bytes ++ (zeros dp ++ (payload roots bs ++ tail))) := by
+    rw [e, readHeader_pragma o.maxHeader _ h10]
+  rw [hrp]
+  simp only [ne_eq, show ¬ ((2 : Nat) = 1) by decide, not_false_eq_true, not_true_eq_false, and_false,
+    ↓reduceIte, true_and]
+  rw [e40]
+  have hrv := readV2Header_bytes hdr hfw []
+  rw [List.append_nil] at hrv
+  rw [hrv]
+  simp only [Except.map, hdo, hds]
+  rw [ewin]
+  unfold payload
+  rw [readHeader_encode o.maxHeader ⟨roots, 1⟩ _ hwf hmax h63]
+  simp only [not_true_eq_false, ↓reduceIte]
+  rw [inspectLoop_sections H hU o validate bs [] ((sectionsBytes bs).length + 1)
+    (by have := sectionsBytes_length_ge bs; omega) hok]
+  simp only [List.nil_append, CarHeader.rootList]
+  cases hasIdx with
+  | false =>
+    have : hdr.hasIndex = false := by simp [V2Header.hasIndex, hio]
+    simp [this]
+  | true =>
+    obtain ⟨rest, hi, hc⟩ := hidx rfl
+    have hio' : hdr.indexOffset = 51 + dp + n + ip := by simp [hio]
+    have : hdr.hasIndex = true := by simp [V2Header.hasIndex, hio']
+    simp only [this, ↓reduceIte]
+    have hdrop : (layoutV2 dp ip (encodeHeader ⟨roots, 1⟩ ++ sectionsBytes bs) true fi index).drop hdr.indexOffset = index := by
+      have e3 : layoutV2 dp ip (encodeHeader ⟨roots, 1⟩ ++ sectionsBytes bs) true fi index
+          = (pragma ++ (hdr.bytes ++ (zeros dp ++ (payload roots bs ++ zeros ip)))) ++ index := by
+        have := e; unfold payload at this ⊢; rw [this]; simp [tail]
+      have hl : (pragma ++ (hdr.bytes ++ (zeros dp ++ (payload roots bs ++ zeros ip)))).length = hdr.indexOffset := by
+        rw [hio']; simp [pragma_length, V2Header.bytes_length, zeros_length, hn]; omega
+      rw [e3, List.drop_left' hl]
+    rw [hdrop, hi, readUvarint_uvarint codec hc rest]
+
+/-- a serialized index starts with its codec varint -/
+theorem index_bytes_codec (ix : Index) : ∃ rest, ix.bytes = uvarint ix.codec ++ rest ∧ ix.codec < 2 ^ 63 := by
+  cases ix with
+  | sorted m => exact ⟨_, rfl, by simp [Index.codec, codecSorted]⟩
+  | mh m => exact ⟨_, rfl, by simp [Index.codec, codecMhSorted]⟩
+
+/-- Inspection accepts every valid CARv1 and reports its statistics. -/
+theorem inspect_layoutV1 (H : HashFn) (hU : H.Uniform) (o : ReadOpts) (validate : Bool) (roots : Option (List Cid)) (bs : List Block)
+    (hwf : (CarHeader.mk roots 1).wf) (hmax : (encodeHeaderBody ⟨roots, 1⟩).length ≤ o.maxHeader)
+    (h63 : (encodeHeaderBody ⟨roots, 1⟩).length < 2 ^ 63)
+    (hok : ∀ b ∈ bs, b.wf o.maxSection ∧ b.cid.digest.length ≤ maxDigestAlloc ∧
+      (validate = true → sumOk H b.cid b.data = true ∧ verifies H b.cid b.data = true)) :
+    inspect H o validate (payload roots bs) = .ok (statsOf 1 {} (roots.getD []) (bs.map seenOf) 0) := by
+  unfold inspect payload
+  rw [readHeader_encode o.maxHeader ⟨roots, 1⟩ _ hwf hmax h63]
+  simp only [ne_eq, not_true_eq_false, false_and, ↓reduceIte, show ¬ ((1 : Nat) = 2) by decide]
+  rw [readHeader_encode o.maxHeader ⟨roots, 1⟩ _ hwf hmax h63]
+  simp only [false_and, ↓reduceIte]
+  have := inspectLoop_sections H hU o validate bs [] ((sectionsBytes bs).length + 1)
+    (by have := sectionsBytes_length_ge bs; omega) hok
+  rw [this]
+  simp [CarHeader.rootList]
+
+end Car
